@@ -66,10 +66,16 @@ def rec_content(r, n, style, off=0):
         return CODE[off:off + n]
     if style == 'prefixlike':     # bytes that look like length prefixes / terminators
         return (b'\x00\x00\x00\x00\x00\x00\x00\x05@@@@' * (n // 12 + 1))[:n]
+    if style == 'nested':         # the record's own content is length-prefixed data: a 4-byte big-endian count of what follows
+        import struct
+        if n < 5:
+            return CODE[off:off + n]
+        k = (n - 4, n, n - 4, 0, n - 5)[(n + off) % 5]
+        return struct.pack('>I', k) + CODE[off:off + n - 4]
     return drv.content(r, n, style)
 
 
-STYLES = ('code', 'code', 'pad', 'zero', 'mix', 'rand', 'prefixlike')
+STYLES = ('code', 'code', 'pad', 'zero', 'mix', 'rand', 'prefixlike', 'nested')
 
 
 def parallel(fn, jobs):
